@@ -2,6 +2,7 @@ package gen
 
 import (
 	"math/rand/v2"
+	"strconv"
 	"strings"
 )
 
@@ -33,7 +34,23 @@ type InSub struct {
 	// CorrOuter / CorrInner, when set, correlate the subquery to the current
 	// row: ... WHERE CorrInner = `<-CorrOuter`
 	CorrOuter, CorrInner string
+	// TopN > 0: the subquery is ORDER BY OtherCol [DESC] LIMIT TopN
+	TopN int
+	Desc bool
 }
+
+func (t InSub) topN(o RenderOpts) string {
+	if t.TopN <= 0 {
+		return ""
+	}
+	o.feat("in.subquery.topn")
+	dir := ""
+	if t.Desc {
+		dir = " DESC"
+	}
+	return " ORDER BY " + Ident(t.OtherCol, QBare) + dir + " LIMIT " + strconv.Itoa(t.TopN)
+}
+
 type Between struct {
 	Col    string
 	Lo, Hi any
@@ -196,9 +213,9 @@ func RenderPred(p Pred, o RenderOpts) string {
 			if o.Qualifier != "" {
 				outer = o.Qualifier + "." + outer // under an alias the outer row is {alias: row}
 			}
-			return o.Col(t.Col) + " IN (SELECT " + Ident(t.OtherCol, QBare) + " FROM `<-" + t.Table + "` WHERE " + t.CorrInner + " = `<-" + outer + "`)"
+			return o.Col(t.Col) + " IN (SELECT " + Ident(t.OtherCol, QBare) + " FROM `<-" + t.Table + "` WHERE " + t.CorrInner + " = `<-" + outer + "`" + t.topN(o) + ")"
 		}
-		return o.Col(t.Col) + " IN (SELECT " + Ident(t.OtherCol, QBare) + " FROM `<-" + t.Table + "`)"
+		return o.Col(t.Col) + " IN (SELECT " + Ident(t.OtherCol, QBare) + " FROM `<-" + t.Table + "`" + t.topN(o) + ")"
 	case Between:
 		if t.Neg {
 			o.feat("notbetween")
@@ -271,6 +288,10 @@ type PredGen struct {
 	Disable map[string]bool
 	// Correlate allows IN-subqueries whose WHERE reaches back to the current row.
 	Correlate bool
+	// TopN allows IN-subqueries with ORDER BY ... LIMIT n of their own.
+	TopN bool
+	// HugeConsts adds numeric constants around the ends of the 64-bit integer ranges.
+	HugeConsts bool
 	// LikeNoSpecial restricts LIKE patterns to letters, digits, space, % and _
 	LikeNoSpecial bool
 }
@@ -322,6 +343,10 @@ func (g *PredGen) constFor(c Col) any {
 	}
 	switch c.Kind {
 	case KNum, KNullNum:
+		if g.HugeConsts && g.R.IntN(3) == 0 {
+			// around the ends of the 64-bit integer ranges
+			return Pick(g.R, []float64{9223372036854775808, -9223372036854775808, 18446744073709551616, 1e19, -1e19, 9223372036854774784})
+		}
 		return RandNum(g.R)
 	case KStr, KNullStr:
 		return RandString(g.R, Hostile, 3)
@@ -378,6 +403,9 @@ func (g *PredGen) atom(kind string) Pred {
 			if a, b := g.T.ColsOf(KStr), g.Other.ColsOf(KStr); len(a) > 0 && len(b) > 0 {
 				is.CorrOuter, is.CorrInner = Pick(r, a).Name, Pick(r, b).Name
 			}
+		}
+		if g.TopN && r.IntN(3) == 0 {
+			is.TopN, is.Desc = 1+r.IntN(4), r.IntN(2) == 0
 		}
 		return is
 	case "between", "notbetween":
